@@ -224,7 +224,8 @@ def evalE (c : Ctx) : Nat → Env → Expr → Option Val
         match evalE c fuel env a, evalE c fuel env b with
         | some (.int x), some (.int y) => (cmpInt op x y).map Val.bool
         | some (.str x), some (.str y) =>
-          if op == "==" then some (.bool (x == y)) else if op == "!=" then some (.bool (x != y)) else none
+          if op == "==" then some (.bool (x == y)) else if op == "!=" then some (.bool (x != y))
+          else if op == "+" then some (.str (x ++ y)) else none
         | some (.strs _), some .nil =>
           -- `trimValue != nil`: strings.Split never returns nil
           if op == "!=" then some (.bool true) else if op == "==" then some (.bool false) else none
